@@ -36,8 +36,10 @@ COMPILER_REPLAYS = {
     "u_reserved": ["replay/c19/builtin_name.sh"],
     "u_gensym": ["replay/c19/gensym_capture.sh"],
     "u_varname": ["replay/c19/shared_variant.sh"],
+    "u_genphase": ["replay/c19/phase_temps.sh"],
     "u_gopkgs": ["replay/c02/unused_import.sh"],
     "u_rttypes": ["replay/c02/undefined_tuple.sh"],
+    "u_swbind": ["replay/c02/switch_binding.sh"],
     "u_derive": ["replay/c18/prim_fields.sh"],
     "u_patlit": ["replay/c03/run.sh"],
     "u_annot": ["replay/c03/annotations.sh"],
